@@ -127,9 +127,57 @@ REGISTRY = {
             'no I/O or crash fault applies: catalogs touch no file; the history of operator applications on shared mutable controllers is the schedule',
         ],
     },
+    'C01': {
+        'world': 'eval', 'profile': '', 'faulty': False,
+        'sessions': {'quick': 12000, 'thorough': 200000},
+        'budget': {'quick': 90, 'thorough': 1500},
+        'rule': 'One case = one seeded session over a pool of generated well-formed formulas (every operator kind of the '
+                'statement) whose Beta, Variable and sub-tree OBJECTS are shared: evaluations through get_value_c / '
+                'get_value_and_derivatives / pure-Python get_value on two databases with different column orders, '
+                'BIOGEME objects built from several formulas, simulate / likelihood / null likelihood on live objects, '
+                'columns added from formulas, new formulas added mid-session. Distinct = distinct sha256 of (operation '
+                'kinds, model state). Non-trivial = at least 2 evaluations of formulas that share nodes with a formula '
+                'evaluated earlier.',
+        'components': {'real': REAL, 'stub': []},
+        'assumptions': [
+            'partial: "engine value = mathematical value for every formula" is sampled through the workload; what the simulation '
+            'decides is the history clause (sharing / side-by-side evaluation changes no value, valid formulas keep evaluating)',
+            'reference interpreter written from the documentation of each operator (DESIGN appendix A)',
+            'formulas are kept inside their regular domain by construction and by rejection through the reference interpreter',
+            'A3: a BIOGEME object is not used after its table has been mutated',
+        ],
+    },
+    'C12': {
+        'world': 'eval', 'profile': 'faults', 'faulty': False,
+        'sessions': {'quick': 2500, 'thorough': 40000},
+        'budget': {'quick': 90, 'thorough': 1500},
+        'rule': 'One case = one seeded W-eval session into which specification faults are planted at seeded positions of '
+                'valid formulas (absent column, one name for two kinds, draws outside Monte-Carlo, integration variable '
+                'outside an integral, second derivatives without first, choice / availability keys inconsistent with the '
+                'utilities, NaN / text / empty table, data variable outside the trajectory on panel data, overlapping nests, '
+                'nest leaving the choice set, missing-data code in a read / unread cell) through BIOGEME, get_value_c and '
+                'get_value_and_derivatives, interleaved with valid evaluations on objects that share Beta / Variable / '
+                'sub-tree objects with the faulty ones. Distinct = distinct sha256 of (operation kinds, model state). '
+                'Non-trivial = at least one fault followed by at least one valid evaluation.',
+        'components': {'real': REAL, 'stub': []},
+        'assumptions': [
+            'partial: decided are (a\') a planted fault yields no number, (b) no collateral damage on valid specifications '
+            'afterwards, in the same process for Python-level refusals and after a simulated process restart for engine-raised '
+            'errors, (c) the missing-data code fails iff read; NOT decided: that the exception is the library\'s own type with '
+            'an explanatory message for every position (pure function of the specification; see DESIGN)',
+            'read-set of an observation is the reference interpreter\'s (Elem branch taken, ConditionalSum terms whose condition '
+            'holds, available alternatives of a logit)',
+        ],
+    },
 }
 
 LEVEL_TEXT = {
+    'C12': 'Partial. Faults are planted into running sessions (fault injection at the specification level) and the '
+           'recovery of every valid specification is checked afterwards, in-process and after a simulated process '
+           'restart; missing-data cells are judged against the reference read-set. Sampling, not proof.',
+    'C01': 'Partial. Seeded search over evaluation histories on shared mutable expression nodes; every returned value is '
+           'compared with a reference interpreter, and every evaluation of a valid formula must return, whatever '
+           'evaluations and constructions preceded it. The formula space itself is only sampled.',
     'C16': 'Seeded search over catalog structures and operator histories on shared mutable controllers; after every step '
            'the configuration, every catalog selection and the value of the configured formula are compared with a '
            'product-space model and the formula written out by hand (reference interpreter and a fresh biogeme '
@@ -158,10 +206,8 @@ LEVEL_TEXT = {
 }
 
 NOT_APPLICABLE = {
-    'C01': 'not yet built in this tree (planned: W-eval history clause)',
     'C03': 'not yet built in this tree (planned: by-name store histories)',
     'C10': 'not yet built in this tree (planned: W-eval draws profile)',
-    'C12': 'not yet built in this tree (planned: W-eval fault profile)',
     'C02': 'derivatives are a pure function of (formula, row, parameter point): no schedule, clock, fault or history; deciding it is numerical differential testing, not simulation',
     'C05': 'choice probabilities are pure algebra of utilities, availabilities and nest parameters: nothing for a simulator to schedule or fault',
     'C06': 'model-family consistency is pure algebra relating two formulas on the same inputs',
